@@ -8,6 +8,7 @@ GIL and C extensions — those are in the trusted base (partial).
 -/
 import JaxVerif.Lemmas.Threads
 import JaxVerif.Generated.Storage
+import JaxVerif.Source.Storage
 
 namespace JV
 
@@ -88,5 +89,19 @@ theorem C06_sensitive :
     (runSched ⟨true, false, true⟩ treepathProgs run0 [0, 1, 0]).trace 0 = [0] ∧
     (runSched ⟨false, true, true⟩ stackProgs run0 [0, 1, 0]).trace 0 = [0] := by
   decide
+
+/-- the four binding-stack functions, translated from the source read today: what each does is a function of the
+    calling thread's own `threading.local()` cell and of its arguments only — the translator accepts no other place to
+    keep the stack (a class attribute, a captured `vars(...)` dict, a module-level list become `.unknown`) -/
+theorem C06_source_storage (ctx : SCtx) (st : TState) (cell : Option (List Memo)) (h : st.stack = cell.getD []) :
+    (∃ src, runStorageFn Generated.storageFuns ctx Generated.getShapeMemoCode cell = some (cell, .frame src) ∧
+            resolve ctx (topMemo st) src = topMemo st) ∧
+    ((runStorageFn Generated.storageFuns ctx Generated.setShapeMemoCode cell).map (fun r => r.1.getD [])
+        = some (match st.stack with | [] => [] | _ :: r => ctx.M :: r)) ∧
+    ((runStorageFn Generated.storageFuns ctx Generated.pushShapeMemoCode cell).map (fun r => r.1.getD [])
+        = some ({ args := ctx.A } :: st.stack)) ∧
+    (st.stack ≠ [] → (runStorageFn Generated.storageFuns ctx Generated.popShapeMemoCode cell).map (fun r => r.1.getD [])
+        = some (popStack st).stack) :=
+  source_storage_model ctx st cell h
 
 end JV
